@@ -33,12 +33,15 @@ def run(ck):
     ck.rule("C15.R4", "an I/O error affects only its batch; flush on every Ok batch", floor=3)
     ck.rule("C15.R5", "shutdown ordering; guard drop waits for the worker", floor=4)
     ck.rule("C15.R6", "dropped-lines counter saturates and loses no increment", floor=3)
+    ck.rule("C15.R8", "the mode the writer runs in is the one configured: no builder call puts `lossy` or the queue capacity back to its default, and finish() hands "
+            "both to the writer it builds", floor=4)
     ck.rule("C15.R7", "a line accepted behind the shutdown marker is still written (the worker drains the channel before it releases the writer)", floor=1)
     r1(ck, F)
     r2(ck, F)
     r3(ck, F)
     r4(ck, F)
     r7(ck, F)
+    r8(ck, F)
     r5(ck, F)
     r6(ck, F)
 
@@ -391,6 +394,48 @@ def r6(ck, F):
         ck.ok("C15.R6", "early return at usize::MAX", fn=b.path)
     else:
         ck.bad("C15.R6", "early return at usize::MAX", where(b.raw["sp"]), "no early return when saturated", fn=b.path)
+
+
+def r8(ck, F):
+    """`.lossy(false).thread_name("x")` must still be non-lossy: each consuming setter returns the builder it was given with
+    its own field assigned, or rebuilds it carrying every other field over."""
+    from rulekit.query import builder_carry_over
+    NB = "tracing_appender::non_blocking::NonBlockingBuilder::"
+    builder_carry_over(ck, F, "C15.R8", (NB,))
+    adt = F.adts.get("tracing_appender::non_blocking::NonBlockingBuilder")
+    fields = [f["name"] for f in adt["variants"][0]["fields"]] if adt else []
+    for b in F.body_list:
+        if not b.path.startswith(NB) or b.argc < 2 or str(b.raw["locals"][0]) != str(b.raw["locals"][1]):
+            continue
+        key = "NonBlockingBuilder::%s returns the builder it was given, one option set" % b.path.rsplit("::", 1)[-1]
+        rets = [p.ret for p in PathEval(b).run() if p.end == "return"]
+        if rets and all(r is not None and (r == ("arg", 1) or (r[0] == "agg" and r[1] == "partial") or (r[0] == "agg" and "NonBlockingBuilder" in str(r[1]))) for r in rets):
+            # a whole-struct aggregate was already judged by builder_carry_over; `mut self` + field assignment keeps the rest
+            writes = {x.get("n") for i, j, st in b.stmts() if st["k"] == "assign" and st["lhs"].get("l") == 1 for x in st["lhs"].get("p", []) if isinstance(x, dict) and "n" in x}
+            if len(writes) <= 1:
+                ck.ok("C15.R8", key, fn=b.path, detail=sorted(w for w in writes if w))
+            else:
+                ck.bad("C15.R8", key, where(b.raw["sp"]), "assigns %s" % sorted(w for w in writes if w), fn=b.path)
+        else:
+            ck.bad("C15.R8", key, where(b.raw["sp"]), "returns %s" % [show(r)[:60] for r in rets], fn=b.path)
+    fin = F.body(NB + "finish")
+    if ck.anchor("C15.R8", "NonBlockingBuilder::finish", fin):
+        calls = [t for bb, t in fin.calls() if str(t["callee"].get("path", "")).endswith("NonBlocking::create")]
+        key = "finish() builds the writer from the configured capacity, mode and thread name"
+        if len(calls) == 1:
+            src = []
+            for a in calls[0]["argv"][1:]:
+                o = fin.origin(a)
+                hops = 0
+                while o[0] == "call" and o[2]["argv"] and hops < 3:
+                    o = fin.origin(o[2]["argv"][0]); hops += 1
+                src.append(o[2][0].get("n") if o[0] == "arg" and len(o) > 2 and o[2] else o[0])
+            if set(src) >= {"buffered_lines_limit", "is_lossy", "thread_name"} and len(src) == len(set(src)):
+                ck.ok("C15.R8", key, fn=fin.path, detail=src)
+            else:
+                ck.bad("C15.R8", key, where(fin.raw["sp"]), "NonBlocking::create is given %s" % src, fn=fin.path)
+        else:
+            ck.bad("C15.R8", key, where(fin.raw["sp"]), "%d NonBlocking::create calls" % len(calls), fn=fin.path)
 
 
 def r7(ck, F):
